@@ -72,8 +72,8 @@ from .. import flow
 from ..cfg import cfg_of
 from ..model import UNKNOWN, AnchorError, Func, UnknownIdiom, short
 from . import c18 as _c18
-from .c17_helpers import (BOTH, OUT_EVENTS, RET_NONE, STATES, WS, WSModel, fold_local, local_defs, possible, return_kinds,
-                          single_return_expr)
+from .c17_helpers import (BOTH, OUT_EVENTS, RET_NONE, STATES, WS, WSModel, fold_local, literal_of, local_defs, possible, return_kinds,
+                          single_return_expr, values_at)
 from .common import ancestors, enclosing_map, implied, single, strip_await, walk_self
 
 ASGI_APP = 'falcon.asgi.app.App'
@@ -1416,12 +1416,22 @@ def _cleanup_codes(run, model: WSModel, h: Func):
         run.use_cfg(cfg)
         closes = [(n, c) for n in cfg.live_nodes() for c in n.calls() if isinstance(c.func, ast.Attribute) and c.func.attr == 'close'
                   and isinstance(c.func.value, ast.Name) and c.func.value.id == wsp]
-        def configured_code(e):
+        def configured_code(e, n, m=m):
             e = _one_def(m, e)        # looks through a single-assignment local
-            return isinstance(e, ast.Attribute) and e.attr == 'error_close_code'
+            if isinstance(e, ast.Attribute) and e.attr == 'error_close_code':
+                return True
+            if isinstance(e, ast.Name):
+                # a local / parameter bound on several paths (`def helper(self, ws, code=None)` ... `if code is None: code =
+                # self.ws_options.error_close_code`): every value it can hold at the close, a parameter being what the package's own
+                # calls pass (nobody passes it: the declared default, and None does not survive the `is None` rebinding)
+                vals = values_at(p, m, e.id, n.id)
+                if vals:
+                    return all(isinstance(_one_def(sc, v) if sc is not None else v, ast.Attribute)
+                               and (_one_def(sc, v) if sc is not None else v).attr == 'error_close_code' for (sc, v) in vals)
+            return False
 
-        first = [(n, c) for (n, c) in closes if (c.args and configured_code(c.args[0]))
-                 or any(kw.arg == 'code' and configured_code(kw.value) for kw in c.keywords)]
+        first = [(n, c) for (n, c) in closes if (c.args and configured_code(c.args[0], n))
+                 or any(kw.arg == 'code' and configured_code(kw.value, n) for kw in c.keywords)]
         if not first:
             run.fail('%s: the socket is not closed with ws_options.error_close_code' % m.name, m, closes[0][1] if closes else m.name)
             continue
@@ -1599,15 +1609,18 @@ NON_INT = _NonInt()
 _DISJOINT_FROM_INT = ('builtins.str', 'builtins.bytes', 'builtins.bytearray', 'builtins.float', 'builtins.tuple', 'builtins.list', 'builtins.dict')
 
 
-def _code_predicate(e) -> bool:
-    """e is a truth-valued expression over the close code: a comparison / isinstance() that mentions `code`, or not/and/or of such"""
+def _code_predicate(e, derived=frozenset()) -> bool:
+    """e is a truth-valued expression over the close code: a comparison / isinstance() that mentions `code`, a boolean local already
+    known to be computed from it, or not/and/or of such"""
     if isinstance(e, ast.Compare) or (isinstance(e, ast.Call) and isinstance(e.func, ast.Name) and e.func.id == 'isinstance'):
         return any(isinstance(x, ast.Name) and x.id == 'code' for x in walk_self(e))
+    if isinstance(e, ast.Name):
+        return e.id in derived
     if isinstance(e, ast.UnaryOp) and isinstance(e.op, ast.Not):
-        return _code_predicate(e.operand)
+        return _code_predicate(e.operand, derived)
     if isinstance(e, ast.BoolOp):
-        return any(_code_predicate(v) for v in e.values) and all(
-            _code_predicate(v) or isinstance(v, (ast.Compare, ast.Constant)) for v in e.values)
+        return any(_code_predicate(v, derived) for v in e.values) and all(
+            _code_predicate(v, derived) or isinstance(v, (ast.Compare, ast.Constant)) for v in e.values)
     return False
 
 
@@ -1623,13 +1636,29 @@ class _CloseEval:
             raise AnchorError('%s has no code parameter' % self.f.qual)
         self.cfg = cfg_of(self.f, p)
         self.type_errors: List[str] = []
-        # locals computed from the close code (`reserved = 1015 <= code <= 1999`): a test over one of them is not read
+        # boolean locals computed from the close code (`reserved = 1015 <= code and code <= 1999` ... `if not reserved: reserved =
+        # 1004 <= code and code <= 1006` ... `if reserved: raise`): evaluated along the path like the tests themselves (run() keeps
+        # their truth value per path).  Every binding of such a local must be a predicate of the code / a bool constant.
         self.derived: Set[str] = set()
+        while True:
+            before = set(self.derived)
+            for n in walk_self(self.f.node):
+                if isinstance(n, (ast.Assign, ast.AnnAssign, ast.NamedExpr)) and getattr(n, 'value', None) is not None \
+                        and _code_predicate(n.value, frozenset(self.derived)):
+                    tg = n.targets if isinstance(n, ast.Assign) else [n.target]
+                    self.derived |= {t.id for t in tg if isinstance(t, ast.Name) and t.id != 'code'}
+            if self.derived == before:
+                break
+        if self.derived & set(self.f.params()):
+            raise UnknownIdiom('%s: a parameter is rebound to a test of the close code' % self.f.qual)
+        plain = set()
         for n in walk_self(self.f.node):
-            if isinstance(n, (ast.Assign, ast.AnnAssign, ast.NamedExpr)) and getattr(n, 'value', None) is not None \
-                    and _code_predicate(n.value):
-                tg = n.targets if isinstance(n, ast.Assign) else [n.target]
-                self.derived |= {t.id for t in tg if isinstance(t, ast.Name) and t.id != 'code'}
+            if isinstance(n, (ast.Assign, ast.AnnAssign)):
+                plain |= {id(t) for t in (n.targets if isinstance(n, ast.Assign) else [n.target]) if isinstance(t, ast.Name)}
+        for n in walk_self(self.f.node):
+            if (isinstance(n, ast.Name) and n.id in self.derived and isinstance(n.ctx, (ast.Store, ast.Del)) and id(n) not in plain) \
+                    or (isinstance(n, ast.ExceptHandler) and n.name in self.derived):
+                raise UnknownIdiom('%s: a local computed from the close code is rebound by something that is not a plain assignment' % self.f.qual)
         self.consts: Set[int] = set()
         for n in walk_self(self.f.node):
             if isinstance(n, ast.Compare) and any(isinstance(x, ast.Name) and x.id == 'code' for x in walk_self(n)):
@@ -1648,9 +1677,17 @@ class _CloseEval:
             raise UnknownIdiom('%s: operand %s in a test of the close code' % (self.f.qual, short(e)))
         return v
 
-    def atom(self, code):
+    def atom(self, code, env=()):
+        known = dict(env)
+
         def atom(e):
             if self.derived and any(isinstance(x, ast.Name) and x.id in self.derived for x in walk_self(e)):
+                if isinstance(e, ast.Name):
+                    if e.id not in known:
+                        raise UnknownIdiom('%s: %s (computed from the close code) is tested on a path that does not bind it' % (self.f.qual, e.id))
+                    return {known[e.id]}
+                if isinstance(e, ast.BoolOp) or (isinstance(e, ast.UnaryOp) and isinstance(e.op, ast.Not)):
+                    return None  # decomposed by possible()
                 raise UnknownIdiom('%s: test %s over a local computed from the close code' % (self.f.qual, short(e)))
             if not any(isinstance(x, ast.Name) and x.id == 'code' for x in walk_self(e)):
                 return None
@@ -1724,13 +1761,13 @@ class _CloseEval:
         """-> (raised classes, raw send reachable, wire code values)"""
         cfg, f, p = self.cfg, self.f, self.p
         seen = set()
-        work = [(cfg.entry, code)]
+        work = [(cfg.entry, code, ())]
         raised, sent, wire = set(), False, set()
         while work:
-            nid, v = work.pop()
-            if (nid, repr(v)) in seen:
+            nid, v, env = work.pop()
+            if (nid, repr(v), env) in seen:
                 continue
-            seen.add((nid, repr(v)))
+            seen.add((nid, repr(v), env))
             n = cfg.node(nid)
             if n.kind == 'stmt' and isinstance(n.ast, ast.Raise):
                 e = n.ast.exc.func if isinstance(n.ast.exc, ast.Call) else n.ast.exc
@@ -1744,6 +1781,8 @@ class _CloseEval:
                         if isinstance(k, ast.Constant) and k.value == 'code':
                             wire.add(v if isinstance(val, ast.Name) and val.id == 'code' else '?' + short(val))
             v2 = v
+            envs = [env]
+            at = self.atom(v, env)
             if n.kind == 'stmt' and isinstance(n.ast, (ast.Assign, ast.AnnAssign, ast.AugAssign)):
                 tg = n.ast.targets if isinstance(n.ast, ast.Assign) else [n.ast.target]
                 if any(isinstance(t, ast.Name) and t.id == 'code' for t in tg):
@@ -1751,7 +1790,24 @@ class _CloseEval:
                     if nv is UNKNOWN:
                         raise UnknownIdiom('%s: close code rebound by %s' % (f.qual, short(n.ast)))
                     v2 = nv
-            at = self.atom(v)
+                bound = [t.id for t in tg if isinstance(t, ast.Name) and t.id in self.derived]
+                if bound:
+                    val = n.ast.value
+                    if isinstance(n.ast, ast.AugAssign) or val is None or len(tg) != len(bound) or v2 is not v or not (
+                            _code_predicate(val, frozenset(self.derived)) or (isinstance(val, ast.Constant) and isinstance(val.value, bool))):
+                        raise UnknownIdiom('%s: %s binds a local computed from the close code to something that is not a test of the code'
+                                           % (f.qual, short(n.ast)))
+                    # the truth value of the test, per path (one successor state per possible outcome)
+                    self.type_errors = []
+                    outs = possible(val, at)
+                    if self.type_errors:
+                        raised.add(('builtins.TypeError', nid))
+                    envs = []
+                    for o in sorted(outs):
+                        d = dict(env)
+                        for b in bound:
+                            d[b] = o
+                        envs.append(tuple(sorted(d.items())))
             outcomes = None
             if n.kind == 'test':
                 self.type_errors = []
@@ -1764,7 +1820,8 @@ class _CloseEval:
                 if n.kind == 'test' and l in ('T', 'F'):
                     if (l == 'T') not in outcomes:
                         continue
-                work.append((y, v2))
+                for e2 in envs:
+                    work.append((y, v2, e2))
         return raised, sent, wire
 
 
@@ -1984,8 +2041,9 @@ def r5_payload_types(run):
         def is_check(e, pay=pay, f=f, types=types):
             if isinstance(e, ast.Call) and isinstance(e.func, ast.Name) and e.func.id == 'isinstance' and len(e.args) == 2 \
                     and isinstance(e.args[0], ast.Name) and e.args[0].id == pay:
-                ts = e.args[1].elts if isinstance(e.args[1], ast.Tuple) else [e.args[1]]
-                qs = {p.resolve_expr(f.module, t, f) for t in ts}
+                mod, lit = literal_of(p, f, e.args[1])     # a module-level tuple of types bound once is its value
+                ts = lit.elts if isinstance(lit, ast.Tuple) else [lit]
+                qs = {p.resolve_expr(mod, t, f if mod is f.module else None) for t in ts}
                 return bool(qs) and qs <= types
             return False
 
@@ -2510,10 +2568,14 @@ class _PayloadEval:
         return q[len('builtins.'):] if q and q.startswith('builtins.') else None
 
     def _types(self, e) -> List[str]:
+        mod, e = literal_of(self.p, self.f, e)        # a module-level tuple of types bound once is its value
         ts = e.elts if isinstance(e, ast.Tuple) else [e]
         out = []
         for t in ts:
-            b = self._builtin(t)
+            b = self._builtin(t) if mod is self.f.module else None
+            if mod is not self.f.module:
+                q = self.p.resolve_expr(mod, t) or ('builtins.' + t.id if isinstance(t, ast.Name) else None)
+                b = q[len('builtins.'):] if q and q.startswith('builtins.') else None
             if b is None:
                 raise UnknownIdiom('%s: type test against %s' % (self.f.qual, short(t)))
             out.append(b)
